@@ -209,7 +209,11 @@ func (b *expandBody) expandBlocks(schema *hcl.BodySchema, rawBlocks hcl.Blocks, 
 			if forEachVal.IsKnown() {
 				for it := forEachVal.ElementIterator(); it.Next(); {
 					key, value := it.Element()
-					i := b.iteration.MakeChild(spec.iteratorName, key, value)
+					// The elements of a collection that is marked as a whole are
+					// as sensitive as the collection: the iterator carries the
+					// collection's marks, so that labels and nested for_each
+					// arguments derived from it are treated accordingly.
+					i := b.iteration.MakeChild(spec.iteratorName, key.WithMarks(marks), value.WithMarks(marks))
 
 					block, blockDiags := spec.newBlock(i, b.forEachCtx)
 					diags = append(diags, blockDiags...)
